@@ -45,6 +45,9 @@ type certNet struct {
 	fail    bool
 	served  []byte // last blob served
 	fetches int
+	// seq: answers the server gives to the next requests for a URL, one per request,
+	// before it falls back to blobs (a server that answers inconsistently)
+	seq map[string][][]byte
 }
 
 func newCertNet(c *core.Ctx) *certNet {
@@ -59,6 +62,12 @@ func (n *certNet) fetch(u string) ([]byte, error) {
 	n.fetches++
 	if n.fail {
 		return nil, errors.New("sim: certificate server unreachable")
+	}
+	if q := n.seq[u]; len(q) > 0 {
+		n.seq[u] = q[1:]
+		n.c.Fault("certnet-answers-differ-between-requests")
+		n.served = q[0]
+		return q[0], nil
 	}
 	b, ok := n.blobs[u]
 	if !ok {
@@ -858,7 +867,7 @@ func tamper(c *core.Ctx, w *world, l *gen.LSXG) (*signedexchange.Exchange, strin
 		return readIt(o.File), "misdirected"
 	case "certnet":
 		e := readIt(l.File)
-		op := c.PickStr("certnet.op", "unreachable", "foreign-chain", "corrupt-chain", "truncated-chain", "chain-of-same-host-other-key", "garbage-chain", "empty-chain", "forged-by-chain-member", "odd-key-chain", "forged-with-inline-chain")
+		op := c.PickStr("certnet.op", "unreachable", "foreign-chain", "corrupt-chain", "truncated-chain", "chain-of-same-host-other-key", "garbage-chain", "empty-chain", "forged-by-chain-member", "odd-key-chain", "forged-with-inline-chain", "forged-flapping-server")
 		if e != nil && c.Chance("certnet.twoSignatures", 1, 3) {
 			// the header lists the signature twice: both name the same cert-url, which is
 			// fetched (and fails, or not) once per signature
@@ -890,6 +899,37 @@ func tamper(c *core.Ctx, w *world, l *gen.LSXG) (*signedexchange.Exchange, strin
 			f.CertURL = "data:application/cert-chain+cbor;base64," + base64.StdEncoding.EncodeToString(gen.ChainBytes(other, []byte("ocsp-"+other.Name)))
 			if _, err := f.Sign(); err == nil {
 				c.Fault("certnet-inline-chain-in-cert-url")
+				return readIt(f.File), "certnet-" + op
+			}
+		case "forged-flapping-server":
+			// another key holder signs altered content for the victim's URL, naming the
+			// victim's certificate (cert-sha256) but using its own key; the certificate server
+			// answers the first request with the forger's chain and later ones with the
+			// victim's (or the other way round): whichever single answer a verification relies
+			// on, key and certificate hash cannot both fit
+			other := fixtures.Leaves[c.Pick("certnet.forger", len(fixtures.Leaves))]
+			if other == l.Leaf {
+				other = fixtures.ByName("d-p384")
+				if other == l.Leaf {
+					other = fixtures.ByName("a-p256")
+				}
+			}
+			f := *l
+			hyb := *l.Leaf
+			hyb.Key = other.Key
+			f.Leaf, f.SignerObj = &hyb, nil
+			f.Payload = append([]byte("forged:"), l.Payload...)
+			if _, err := f.Sign(); err == nil {
+				forger := gen.ChainBytes(other, []byte("ocsp-"+other.Name))
+				victim := w.net.blobs[l.CertURL]
+				if w.net.seq == nil {
+					w.net.seq = map[string][][]byte{}
+				}
+				if c.Bool("certnet.forgerFirst") {
+					w.net.seq[l.CertURL] = [][]byte{forger}
+				} else {
+					w.net.seq[l.CertURL] = [][]byte{victim, forger, victim}
+				}
 				return readIt(f.File), "certnet-" + op
 			}
 		case "forged-by-chain-member":
